@@ -257,3 +257,9 @@ def run(F, rep):
     import core
     import c16
     c16.run(F, core.Borrowed(rep, only={'C16.N1', 'C16.G1', 'C16.U2'}))
+
+    # ------------------------------------------------------------------ W: walks over the component tree are complete
+    import recursion as _recw
+    _recw.rule_walkers(F, rep, 'C04.W1', ['validateComponentTree', 'traverseComponentTree', 'buildComponentIdMap', 'findAllVariablesWithEquivalences'], 4, 'validating components, collecting ids and connected variables')
+
+
